@@ -293,7 +293,19 @@ func filterJoin(ctx stick.Context, val stick.Value, args ...stick.Value) stick.V
 	return strings.Join(slice, separator)
 }
 
-func filterJSONEncode(ctx stick.Context, val stick.Value, args ...stick.Value) stick.Value {
+func filterJSONEncode(ctx stick.Context, val stick.Value, args ...stick.Value) (res stick.Value) {
+	// encoding/json recurses once per level of nesting and calls the value's own
+	// MarshalJSON methods: a value nested too deep to encode (a template can
+	// build one in a loop) or a marshaler that panics (one promoted from a nil
+	// embedded pointer) yields nothing instead of ending the process.
+	if nestsDeeperThan(reflect.ValueOf(val), maxEncodeDepth) {
+		return nil
+	}
+	defer func() {
+		if recover() != nil {
+			res = nil
+		}
+	}()
 	// TODO: implement flags
 	jsonData, err := json.Marshal(val)
 	if err != nil {
@@ -302,6 +314,40 @@ func filterJSONEncode(ctx stick.Context, val stick.Value, args ...stick.Value) s
 	}
 
 	return string(jsonData)
+}
+
+// maxEncodeDepth bounds the nesting of a value handed to encoding/json.
+const maxEncodeDepth = 10000
+
+// nestsDeeperThan reports whether v holds containers nested more than limit
+// levels deep. Its own recursion is bounded by limit.
+func nestsDeeperThan(v reflect.Value, limit int) bool {
+	if limit < 0 {
+		return true
+	}
+	switch v.Kind() {
+	case reflect.Interface, reflect.Ptr:
+		return !v.IsNil() && nestsDeeperThan(v.Elem(), limit-1)
+	case reflect.Slice, reflect.Array:
+		for i := 0; i < v.Len(); i++ {
+			if nestsDeeperThan(v.Index(i), limit-1) {
+				return true
+			}
+		}
+	case reflect.Map:
+		for iter := v.MapRange(); iter.Next(); {
+			if nestsDeeperThan(iter.Value(), limit-1) {
+				return true
+			}
+		}
+	case reflect.Struct:
+		for i := 0; i < v.NumField(); i++ {
+			if nestsDeeperThan(v.Field(i), limit-1) {
+				return true
+			}
+		}
+	}
+	return false
 }
 
 func filterKeys(ctx stick.Context, val stick.Value, args ...stick.Value) stick.Value {
